@@ -25,7 +25,8 @@ EXPLANATION = (
     'sieve with the checker\'s arithmetic, no repo code executed). C18.b: SRS uses 8 and DMRS 12 cyclic shifts and '
     'get_shifted_root_seq asserts |n_cs| < denominator and uses phase 2 pi n_cs/denominator; ROOT_TABLE1/2 have 30 '
     'rows of 12/24 entries from {+-1,+-3}; sizes 12/24 are looked up in those tables, larger ones use Zadoff-Chu. '
-    'Not decided: CAZAC identities, estimator exactness, LS normal equations (numeric).')
+    'Not decided: CAZAC identities, estimator exactness, LS normal equations (numeric).'
+    ' General rules also applied here (see DESIGN 10.5): input immutability (no in-place modification of an array argument, alias- and view-aware).')
 
 
 def _literal_ints(e: ast.AST) -> Optional[List[int]]:
